@@ -306,7 +306,7 @@ func parseRaces(stderr string) []RaceReport {
 			default:
 				if inAccess && !strings.HasPrefix(t, "/") && strings.Contains(t, "(") {
 					fn := strings.TrimSuffix(t, "()")
-					if len(rr.TopFrames) < 12 {
+					if len(rr.TopFrames) < 40 {
 						rr.TopFrames = append(rr.TopFrames, fn)
 					}
 					if needAccessor && !strings.HasPrefix(fn, "runtime.") {
